@@ -172,7 +172,9 @@ def gen_history(rng, hdir, idx):
                 # a table the in-memory schema never hears of (apply_action ignores raw_sql)
                 rt = "raw%d_%d" % (idx, len(rawtables) + tcount[0] * 10)
                 rawtables.append(rt)
-                acts.append({"type": "raw_sql", "sql": "CREATE TABLE %s (x INTEGER)" % rt})
+                shapes = ["CREATE TABLE %s (x INTEGER)", "-- created by hand\nCREATE TABLE %s (\n\tx INTEGER\n)",
+                          "/* legacy\n   table */\nCREATE TABLE %s (x INTEGER DEFAULT 7, -- the value\n  y TEXT DEFAULT 'a\nb')", "\n\n  CREATE TABLE %s\n\t(x INTEGER)\n"]
+                acts.append({"type": "raw_sql", "sql": rng.choice(shapes) % rt})
             elif choice < 0.42 and rawtables:
                 # a modelled action on it: valid SQL, rejected by apply_action (error ignored by the macro, lib.rs:73-76);
                 # never last in its migration: a schema change on a tracked table follows
@@ -204,7 +206,8 @@ def gen_history(rng, hdir, idx):
                              "constraint": {"type": rng.choice(["index", "unique"]), "columns": [c]}})
             elif choice < 0.9:
                 info["view"] = True
-                acts.append({"type": "raw_sql", "sql": "CREATE VIEW v%d_%d AS SELECT id FROM %s%s" % (idx, version * 10 + len(acts), "", t)})
+                vshape = rng.choice(["CREATE VIEW v%d_%d AS SELECT id FROM %s%s", "CREATE VIEW v%d_%d AS\n  SELECT id, -- key\n    'two\nlines' AS txt\n  FROM %s%s"])
+                acts.append({"type": "raw_sql", "sql": vshape % (idx, version * 10 + len(acts), "", t)})
             else:
                 free = [c for c in info["cols"][1:] if c not in info["ix"]]
                 if not free:
@@ -985,7 +988,22 @@ def oracle_c09(h, run):
                           "result": insts[1]["result"]})
         if run["after"]["rows"] != mid["rows"] or run["after"]["catalog"] != mid["catalog"]:
             fails.append({"clause": "second-run-changes-nothing"})
+    # both code shapes: the same statement texts, byte for byte, and the same database afterwards
+    twin = h.get("_by_name", {}).get(twin_name(run["name"], run["variant"]))
+    if twin is not None and not run.get("dry"):
+        u2, i2, _ = split_txn(twin["instances"][0]["log"])
+        if u2 != user:
+            fails.append({"clause": "verbose-and-default-issue-the-same-statement-texts", "this_shape": [x for x, y in zip(user, u2) if x != y][:2] or user[len(u2):][:2],
+                          "other_shape": [y for x, y in zip(user, u2) if x != y][:2] or u2[len(user):][:2]})
+        tmid = twin["mids"][0] if twin.get("mids") else twin["after"]
+        if tmid["catalog"] != mid["catalog"] or tmid["rows"] != mid["rows"]:
+            fails.append({"clause": "verbose-and-default-leave-the-same-database", "this": mid["catalog"][:400], "other": tmid["catalog"][:400]})
     return {"ok": not fails, "fails": fails}
+
+
+def twin_name(name, variant):
+    """the same run under the other code shape (verbose <-> default), same version-table option"""
+    return name.replace("_v%d_" % variant, "_v%d_" % (variant ^ 1))
 
 
 def same_but_bookkeeping(a, b):
@@ -1150,7 +1168,7 @@ CLASSIFIERS = {"id_conflict": lambda hyp: bool(hyp and hyp.get("id_conflict")),
 
 FAMILY = {"C09": ("c09",), "C10": ("c10",), "C11": ("c11",)}
 RULES = {
-    "C09": "every history (corpus/mig + generated in thorough) x every start version k in 0..n x 4 option sets (plain / verbose / version_table / both), 2 consecutive starts each; legacy bookkeeping layout; fake PostgreSQL/MySQL backends; pre-seeded foreign ids and out-of-range versions. non-trivial = distinct (history, options, prepared database) with >= 1 pending migration",
+    "C09": "raw_sql statements whose meaning depends on their line structure (-- and /* */ comments, multi-line string literals, tabs, blank lines; corpus h11_multiline_sql and the thorough generator), statement texts compared byte for byte in both code shapes and the databases (catalog + table rows) of the verbose and the default run with each other; every history (corpus/mig + generated in thorough) x every start version k in 0..n x 4 option sets (plain / verbose / version_table / both), 2 consecutive starts each; legacy bookkeeping layout; fake PostgreSQL/MySQL backends; pre-seeded foreign ids and out-of-range versions. non-trivial = distinct (history, options, prepared database) with >= 1 pending migration",
     "C10": "fault injected at connection call j (quick: every j for the fresh database of each history + 2 random j per (k, options); thorough: every j everywhere), each followed by a clean re-run; process killed (abort) before call j and database re-opened by a new process; error values of seven classes/texts for the injected failure (neutral, three lock-contention texts, two duplicate-object texts, a connection error), rotated over the call-indexed faults; persistent faults keyed by statement (every execution of one pending statement fails) with each error value, then lifted and the run repeated; histories whose raw_sql scripts carry transaction control (BEGIN…COMMIT, BEGIN…END, BEGIN TRANSACTION…END TRANSACTION, bare COMMIT / END / ROLLBACK, SAVEPOINT…RELEASE; first / middle / last pending migration by start version; both code shapes; a fault at every call); natural engine refusals: an object (table / index / column) that a pending statement creates is created by hand before the run, at every position of the pending list where it is the first statement touching that object, for every start version k and both code shapes, then the obstacle is removed and the run repeated. non-trivial = distinct (history, options, k, j) where the fault/kill hits inside the transaction (j >= 3)",
     "C11": "2 or 3 instances on one SQLite file (busy_timeout 0) stepped by the scheduler, then one late retry instance; systematic + seeded random schedules (thorough: every interleaving of the transaction parts for <= 7 calls, every interleaving of the parts outside the transaction). non-trivial = distinct (history, options, k, effective schedule) in which >= 2 instances issued a call while another was unfinished",
 }
@@ -1240,6 +1258,7 @@ def mig_check(prop, tier, seed, assumptions):
                 chk.violation(rp, True)
     runs_by = {}
     for h in res["histories"]:
+        h["_by_name"] = {r["name"]: r for r in h.get("runs", [])}
         for r in h.get("runs", []):
             runs_by[(h["name"], r["name"])] = r
         for c in h.get("crashes", []):
